@@ -27,7 +27,7 @@ CHECKS = {
  'C12': ('fault_enumeration', 'failpoint injection + model acceptor', 'A countdown failpoint throws from the k-th guard/action/entry/exit callback of a top-level call (k random in 0..10, every call position reachable by the scripts incl. cascades, completion steps, queued and deferred dispatches, submachine levels); exception_caught exactly once with the event, nothing more of the aborted transition, no no_transition, active state per switch policy, continuation accepted by the model (not wedged).', '3 C12'),
  'C03': ('exploration', 'entry/exit ledger + introspection agreement (model-free invariant monitor)', 'The ledger is rebuilt from observed on_entry/on_exit records only (alternation, substates only inside an active submachine, innermost-first stop); at every quiescent point current_state()/get_active_state_ids() of every active level (ids by the documented numbering, computed independently in Python), is_state_active<S> for every S, get_state_by_id identity and the visitors (back accept_sig; backmp11 all four visit modes) must describe exactly the ledger configuration; start()/stop()/restart cycles included.', '3 C03'),
  'C13': ('exploration', 'differential monitor across 7 back-end configurations', 'The same generated machine and the same script are executed under back (runtime speed, compile time, circular queues), back11 and backmp11 (flat_fold, function_pointer_array, favor_compile_time); the normalised traces (every guard/action/entry/exit/no_transition/exception_caught record with arguments and order, active ids after every operation, handled/zero status) must be identical to the backmp11 flat_fold reference.', '3 C13'),
- 'C14': ('exploration', 'differential monitor between front-end families + run-time oracle on the PlantUML tokenizer', 'One machine definition is emitted as functor rows (Row/Internal, none, ActionSequence_, And_/Or_/Not_), as basic member-function rows (row, a_row, g_row, _row, irow family, internal<> family), as row2 family rows and - for flat machines - as a PlantUML string with Guard/Action specialisations; traces on the same scripts must be identical (guard expressions with !, &&, ||, parentheses are observed through the sequence of atom evaluations). The tokenizer functions (parse_row, parse_stt<N>, parse_inits<N>, parse_action<N>, count_*) are called at run time under ASan+UBSan on documents generated from the documented line grammar and compared field by field with the intended fields.', '3 C14'),
+ 'C14': ('exploration', 'differential monitor between front-end families + run-time oracle on the PlantUML tokenizer', 'One machine definition is emitted as functor rows (Row/Internal, none, ActionSequence_, And_/Or_/Not_), as basic member-function rows (row, a_row, g_row, _row, irow family, internal<> family), as row2 family rows and - for flat machines - as an eUML transition-table expression (euml_state/euml_event/euml_action terminals, &&, ||, !, comma sequences) and as a PlantUML string with Guard/Action specialisations; traces on the same scripts must be identical (guard expressions with !, &&, ||, parentheses are observed through the sequence of atom evaluations). The tokenizer functions (parse_row, parse_stt<N>, parse_inits<N>, parse_action<N>, count_*) are called at run time under ASan+UBSan on documents generated from the documented line grammar and compared field by field with the intended fields.', '3 C14'),
  'C15': ('exploration', 'differential monitor (copy vs fresh twin) + instance-label invariant', 'A machine is copy-constructed from a const reference, copy-assigned or (backmp11) move-constructed / move-assigned at random quiescent points with 0-3 pending queued/deferred events; the copy\'s snapshot must equal the source\'s, its continuation must equal that of a fresh machine replaying prefix + continuation, no behaviour of the other instance may be invoked while one is driven (every record carries the instance label of its Fsm& argument), the undisturbed original must not change, and moved-from machines are destroyed or assigned to.', '3 C15'),
  'C16': ('exploration', 'differential monitor (loaded archive vs original)', 'back/back11 machines are saved to text and binary archives at random quiescent points with empty queues and loaded into a fresh machine: snapshot (ids at all levels, flags, do_serialize data) must be equal, and original and loaded twin must produce identical normalised traces on identical continuations incl. re-entry of submachines with history.', '3 C16'),
  'C17': ('exploration', 'flag invariant monitor over ledger configurations', 'At every quiescent point is_flag_active<F>() (OR) at every active level and the AND form on levels whose active states are simple are compared with the flags of the ledger configuration for every flag; inside callbacks the OR flags of the Fsm& argument are compared with the configuration the switch policy shows.', '3 C17'),
